@@ -101,6 +101,13 @@ func deliverToSubscription(
 			First(ctx)
 		if err == nil {
 			createDelivery.SetNotBefore(lastDelivery)
+			// deliveries created in one transaction share `now` (all the dead letter
+			// forwards of one sweep / pull / nack do): keep the publish stamps of a
+			// key's chain strictly increasing, otherwise the "most recent delivery"
+			// lookup above ties and a later message may be chained to the wrong one
+			if !lastDelivery.PublishedAt.Before(now) {
+				createDelivery.SetPublishedAt(lastDelivery.PublishedAt.Add(time.Microsecond))
+			}
 		} else if !ent.IsNotFound(err) {
 			return nil, err
 		}
